@@ -87,6 +87,14 @@ def base_dumps():
     unordered = [B.rec(ts, (i, 2, 3, 4), 9, 0x040c000d) for i, ts in enumerate(stamps)]
     out['v2-unordered'] = v2d([(9, 10, 'procA')], 0, unordered)
 
+    # three user-stack samples with an image announced between them (callstack consumers)
+    def sample(ts, words):
+        return [R('PERF_Event', 1, (8, 1, 0, 0), tid=1, ts=ts), R('PERF_STK_UHdr', 0, (1, len(words), 0, 0), tid=1, ts=ts + 1),
+                R('PERF_STK_UData', 0, tuple(words) + (0,) * (4 - len(words)), tid=1, ts=ts + 2), R('PERF_Event', 2, (8, 0, 0, 0), tid=1, ts=ts + 3)]
+    samples = sample(40, (0x1010, 0x2020)) + [R('DYLD_uuid_map_a', 0, tid=1, ts=50, data=bytes(range(1, 17)) + B.le(0x1000, 8) + B.le(1, 8))] + \
+        sample(60, (0x1014, 0x999, 0x2024)) + sample(70, (0x1018,))
+    out['v2-samples'] = v2d([(1, 10, 'procA')], 0, samples)
+
     def v3d(**kw):
         blob, parts = B.v3_sections(**kw)
         return blob, [(s, e) for (n, s, e) in parts if n.startswith('rec')]
@@ -127,6 +135,7 @@ def tc():
 
 
 CONSUMERS = ['parse', 'kevents', 'traces', 'formatted_kevents', 'formatted_traces']
+STACK_CONSUMERS = ['callstacks', 'formatted_callstacks']
 
 
 def obs(x):
@@ -136,6 +145,8 @@ def obs(x):
         return x
     if hasattr(x, 'ktraces'):
         return ('trace', type(x).__name__, str(x), tuple((e.timestamp, e.debugid, e.tid) for e in x.ktraces))
+    if hasattr(x, 'frames'):
+        return ('callstack', x.timestamp, x.tid, repr(x.frames))
     return ('ev', x.timestamp, x.data, tuple(x.values), x.tid, x.debugid, x.eventid, x.func_qualifier)
 
 
@@ -158,6 +169,10 @@ def consume(blob, consumer, limit=None):
                 gen = f.traces(reader, tc())
             elif consumer == 'formatted_kevents':
                 gen = f.formatted_kevents(reader, tc())
+            elif consumer == 'callstacks':
+                gen = f.callstacks(reader, tc())
+            elif consumer == 'formatted_callstacks':
+                gen = f.formatted_callstacks(reader, tc())
             else:
                 gen = f.formatted_traces(reader, tc())
         if limit is not None:
@@ -269,10 +284,12 @@ class C06(Check):
             'more events than complete records before the cut; reported items do not change afterwards; islice(c) == '
             'first c of the full listing. Distinct by construction; non-trivial = the cut falls strictly inside a record '
             'or inside the header/sections (not at a record boundary or at len).')
-    assumptions = ('base dumps are those of checks/c06.py:base_dumps (0.4-1.7 kB each; two of them hold 20 records whose timestamps are not in file order)',
+    assumptions = ('base dumps are those of checks/c06.py:base_dumps (0.4-1.7 kB each; two of them hold 20 records whose timestamps are not in file order; one holds three user-stack samples and an image announcement and is read through callstacks / formatted_callstacks)',
                    'the prefix claim does not demand progress: how many items were reported is recorded, not judged')
 
     def consumers(self, name):
+        if 'samples' in name:
+            return STACK_CONSUMERS + ['traces', 'formatted_traces']
         if self.tier == 'quick':
             if 'syscalls' in name or 'rename' in name:
                 return CONSUMERS
